@@ -611,40 +611,24 @@ func r18RoutersOnlyForStanzas(c *cx, id string) {
 		return
 	}
 	n := 0
-	ast.Inspect(f.Body, func(nd ast.Node) bool {
-		ifs, ok := nd.(*ast.IfStmt)
-		if !ok {
-			return true
+	g := f.Graph()
+	for _, rs := range g.Returns {
+		router := false
+		for _, r := range rs.Results {
+			ast.Inspect(r, func(x ast.Node) bool {
+				if sel, ok := x.(*ast.SelectorExpr); ok && strings.HasSuffix(sel.Sel.Name, "outer") {
+					router = true
+				}
+				return true
+			})
 		}
-		routers := false
-		ast.Inspect(ifs.Body, func(x ast.Node) bool {
-			if sel, ok := x.(*ast.SelectorExpr); ok && strings.HasSuffix(sel.Sel.Name, "outer") {
-				routers = true
-			}
-			return true
-		})
-		if !routers {
-			return true
-		}
-		// the outermost if that contains the routers: skip this one when an
-		// enclosing if statement contains it
-		enclosed := false
-		ast.Inspect(f.Body, func(x ast.Node) bool {
-			if o, ok := x.(*ast.IfStmt); ok && o != ifs && o.Pos() <= ifs.Pos() && ifs.End() <= o.End() {
-				enclosed = true
-			}
-			return true
-		})
-		if enclosed {
-			return true
+		if !router {
+			continue
 		}
 		n++
-		cond := resolveBool(f, ifs.Cond)
-		cl, ok := ast.Unparen(cond).(*ast.CallExpr)
-		okk := ok && f.CalleeID(cl) == "stanza.Is" && len(cl.Args) == 2 && f.Norm(cl.Args[0], nil) == "p0" && f.Norm(cl.Args[1], nil) == "recv.stanzaNS"
-		c.r.Check(id, f, "fallback to the stanza routers", "G(exact): the routers are chosen under stanza.Is(name, m.stanzaNS) and nothing else", ifs.Pos(), okk, "the condition is "+types.ExprString(ifs.Cond)+": names that are not stanzas of this stream reach the routers (and the IQ router answers what it cannot route)")
-		return true
-	})
+		c.dom(id, f, rs, "fallback to a stanza router", []string{"stanza.Is(p0,recv.stanzaNS)"})
+		c.onlyFacts(id, f, rs, "fallback to a stanza router (exact)", []string{"stanza.Is(p0,recv.stanzaNS)", "eq(*,nil)", "eq(p0.Local,*)", "!eq(p0.Local,*)", "eq(*,p0.Local)", "!eq(*,p0.Local)"})
+	}
 	c.r.Floor(id, "fallbacks to the stanza routers in ServeMux.Handler", n, 1)
 }
 
